@@ -1,4 +1,5 @@
 import PysersicModel.IO.SkyEstimate
+import PysersicModel.Gen.Consts
 
 namespace Pysersic.Driver
 open Pysersic.SkyEstimate
@@ -21,5 +22,39 @@ def skyEstimate (args : List String) : String :=
       s!"count={used.length} used=[{s}]"
     | _, _, _, _ => "bad-op sky-args"
   | _ => "bad-op sky-arity"
+
+/-- a mask token: `none` (no mask object), `-` (a mask object with nothing masked) or `i,j,k` (masked flat indices) -/
+def parseMaskTok (H W : Nat) (t : String) : Option (Option (Nat → Nat → Bool)) :=
+  if t == "none" then some none
+  else
+    let toks := if t == "-" then [] else t.splitOn ","
+    match toks.mapM String.toNat? with
+    | some ms =>
+      let marr := Id.run do
+        let mut a := Array.replicate (H * W) false
+        for m in ms do
+          if m < a.size then a := a.set! m true
+        return a
+      some (some fun i j => marr.getD (i * W + j) false)
+    | none => none
+
+/-- `sky2 H W n <own> <arg>`: the image's own mask (numpy masked array) and the separately passed mask; the slices, the
+rule that combines the two masks and whether the gathering keeps masks are the ones read from the source (`Gen`).
+Reply as for `sky`. -/
+def skyEstimate2 (args : List String) : String :=
+  match args with
+  | [h, w, n, own, arg] =>
+    match h.toNat?, w.toNat?, n.toNat? with
+    | some H, some W, some n =>
+      match parseMaskTok H W own, parseMaskTok H W arg with
+      | some own, some arg =>
+        let eff := effMask Gen.skyMaskRule H W own arg
+        let mask : Nat → Nat → Bool := if Gen.skyGatherKeepsMask then eff else fun _ _ => false
+        let used := (borderIdxOf Gen.skySlices H W n).filter fun p => !mask p.1 p.2
+        let s := " ".intercalate (used.map fun p => toString (p.1 * W + p.2))
+        s!"count={used.length} used=[{s}]"
+      | _, _ => "bad-op sky2-mask"
+    | _, _, _ => "bad-op sky2-args"
+  | _ => "bad-op sky2-arity"
 
 end Pysersic.Driver
